@@ -459,19 +459,32 @@ func (mbox *MailboxView) staticNumSet(numSet imap.NumSet) imap.NumSet {
 		return mbox.searchRes
 	}
 
+	// Build a new set rather than patching the ranges in place: resolving "*"
+	// can change the order of the ranges, and the caller's set must be left
+	// untouched
 	switch numSet := numSet.(type) {
 	case imap.SeqSet:
 		max := uint32(len(mbox.l))
-		for i := range numSet {
-			r := &numSet[i]
-			staticNumRange(&r.Start, &r.Stop, max)
+		var static imap.SeqSet
+		for _, r := range numSet {
+			start, stop := r.Start, r.Stop
+			staticNumRange(&start, &stop, max)
+			if start != 0 && stop != 0 {
+				static.AddRange(start, stop)
+			}
 		}
+		return static
 	case imap.UIDSet:
 		max := uint32(mbox.uidNext) - 1
-		for i := range numSet {
-			r := &numSet[i]
-			staticNumRange((*uint32)(&r.Start), (*uint32)(&r.Stop), max)
+		var static imap.UIDSet
+		for _, r := range numSet {
+			start, stop := uint32(r.Start), uint32(r.Stop)
+			staticNumRange(&start, &stop, max)
+			if start != 0 && stop != 0 {
+				static.AddRange(imap.UID(start), imap.UID(stop))
+			}
 		}
+		return static
 	}
 
 	return numSet
